@@ -170,6 +170,28 @@ theorem C17_avail (rc : RC) (ac : Nat) (h : availCores rc = some ac) (hc : rc.cp
     · cases h; omega
     · cases h
 
+/-- **the per-host figure of the job matches its totals**: the batch system is told the usable cores of a
+    node as processes per host, and (for a node of known size) the total is the node count times that
+    figure - what the batch system derives from the two is the node count the pilot was sized for -/
+theorem C17_per_host (rc : RC) (pd : PD) (sz : Sizing) (ac : Nat) (hs : sizePilot rc pd = .ok sz)
+    (hac : availCores rc = some ac) :
+    sz.procsPerHost = ac ∧ (sz.nodeCount * ac ≠ 0 → sz.totalCpu = sz.nodeCount * sz.procsPerHost) := by
+  unfold sizePilot at hs
+  rw [hac] at hs
+  cases hag : availGpus rc with
+  | none => rw [hag] at hs; cases hs
+  | some ag =>
+    rw [hag] at hs
+    simp only at hs
+    cases hr : reqNodes pd ac ag with
+    | error e => rw [hr] at hs; cases hs
+    | ok n =>
+      rw [hr] at hs
+      cases hs
+      refine ⟨rfl, ?_⟩
+      intro hne
+      simp only [orElse, hne, ne_eq, not_false_eq_true, if_true]
+
 /-- a pilot given by cores and GPUs is always turned into a job when the blocked cores/GPUs fit the
     node - in particular on a platform that declares no GPUs per node (the GPU term is skipped and the
     requested GPU count is passed on) and on one that declares no node size at all -/
